@@ -2,6 +2,7 @@ package snapsim
 
 import (
 	"encoding/json"
+	"sort"
 
 	"github.com/ethereum/go-ethereum/core/rawdb"
 
@@ -91,12 +92,16 @@ func GenC47(r *simcore.Rand, tier string) any {
 		pp.Evil = i > 0 && r.Bool(0.2)
 		p.Peers = append(p.Peers, pp)
 	}
-	// operations
+	// operations, spread over the estimated length of the sync (in responses)
+	est := estimateRequests(p)
 	nops := r.Pick(3, 3, 2, 2, 1, 1)
-	at := 0
+	var ats []int
 	for i := 0; i < nops; i++ {
-		at += r.Range(1, 60)
-		op := Op{After: at}
+		ats = append(ats, 1+r.Intn(est+est/5+2))
+	}
+	sort.Ints(ats)
+	for i := 0; i < nops; i++ {
+		op := Op{After: ats[i]}
 		switch r.Pick(4, 2, 2, 1, 1, 1) {
 		case 0:
 			op.K, op.N = "move", r.Range(1, 3)
@@ -113,10 +118,37 @@ func GenC47(r *simcore.Rand, tier string) any {
 		}
 		p.Ops = append(p.Ops, op)
 	}
-	p.FaultStop = r.Range(20, 400)
+	p.FaultStop = r.Range(est/4+5, 2*est+40)
 	p.Concurrent = r.Pick(3, 2, 1, 1) + 1
 	p.Tape = r.Tape(300)
 	return p
+}
+
+// estimateRequests is a rough guess of how many responses a fault-free sync of
+// the plan's state needs; only used to place operations inside the sync.
+func estimateRequests(p *Plan) int {
+	cap := 1 << 20
+	for _, pp := range p.Peers {
+		if pp.Cap < cap {
+			cap = pp.Cap
+		}
+	}
+	if cap > 64*1024 {
+		cap = 64 * 1024
+	}
+	sp := &p.State
+	contracts := len(sp.Large) + sp.Small + sp.NoStore
+	accounts := sp.Plain + contracts + 9
+	est := p.AccConc + accounts*110/cap
+	for _, l := range sp.Large {
+		est += 1 + l*75/cap
+	}
+	est += sp.Small * (1 + sp.SmallMax) * 75 / max(cap, 1024)
+	est += contracts/8 + 4
+	if p.Ver == 1 {
+		est += p.AccConc * 3
+	}
+	return est
 }
 
 func clonePlan(p *Plan) *Plan {
@@ -252,6 +284,24 @@ func Checks() map[string]*simcore.Check {
 			Runs: map[string]int{"quick": 640, "thorough": 40000},
 			Gen:  GenC47, Decode: DecodeC47, Run: RunC47, Shrink: ShrinkC47,
 			ProbeNames: []string{"completed-and-compared", "forged-response-rejected", "answer-from-unregistered-peer", "answer-to-previous-syncer", "concurrent-deliveries", "peer-rejoined", "sync-cycle-completed"},
+		},
+		"C48": {
+			ID: "C48", Engine: "snapsim", Level: "exploration",
+			Rule: "one run = one generated Node A (real BlockChain, hash or path scheme, generated state as in C47, 2-8 further blocks, sometimes 125-140 more so that layers are flattened and roots go stale) and 20-60 generated requests against the real Service*Query handlers: account ranges and storage ranges with origins/limits at, just before, just after and between existing keys, zero, max, inverted and random, byte budgets 0..2x the soft limit and beyond, roots 0-3 blocks behind the head, far behind, unknown; storage requests for 1-40 accounts (contracts, plain accounts, unknown) with origin/limit present, absent or of malformed length; byte code requests mixing existing, unknown and empty-code hashes (up to 1100); trie node requests with existing node paths, key prefixes, over-long, raw malformed paths and zero-item sets; Node A imports blocks between requests (sometimes concurrently with one). In 15% of the runs a real snap/1 sync runs first and every answer the handlers give it is judged too. Non-trivial = at least one request answered; distinct = distinct answer-shape sequences.",
+			Assumptions: []string{
+				"Node A's state per root is the reference, cross-checked against the independent refmpt root computation; trie nodes are compared with refmpt's node encoder",
+				"a storage request that lists an account without storage (or an unknown one) gets no list for it; the oracle aligns the returned lists with the requested accounts that have slots, as the handler does (a real client only lists accounts with a non-empty storage root)",
+				"a trie path without a stand-alone node may be skipped or answered with an empty item; every non-empty item must be the node of a requested path, in request order",
+				"the server must answer for roots at most 100 blocks behind its head; for older roots an empty answer is accepted as well",
+			},
+			Components: simcore.Components{
+				Real: []string{"snap.ServiceGetAccountRangeQuery / StorageRanges / ByteCodes / TrieNodes", "core.BlockChain, pathdb / hashdb + snapshot tree iterators (Node A)", "trie.Prove, trie.VerifyRangeProof (the client's check)"},
+				Stub: []string{"the requesting clients (generated requests)", "clock (synctest bubble)"},
+			},
+			Perturbed: []string{"block import running concurrently with a request (knob 'conc'): the interleaving inside Node A is not decided", "pathdb background flushing, snapshot generation"},
+			Runs:      map[string]int{"quick": 1600, "thorough": 100000},
+			Gen:       GenC48, Decode: DecodeC48, Run: RunC48, Shrink: ShrinkC48,
+			ProbeNames: []string{"acc-answered", "sto-answered", "sto-multi-list-answer", "sto-proven-answer", "code-answered", "trie-answered", "unknown-root-request", "old-root-request", "inverted-range", "multi-account-storage-request", "import-concurrent-with-request", "trie-bad-request-error", "filler-blocks-imported", "syncer-requests-checked"},
 		},
 	}
 }
